@@ -745,8 +745,7 @@ def dtype_fails(R, check_coh):
     m = dict(d["method"])
     xall = np.vstack([R.x0, R.r0[None, :]])
     if sd == "float32":
-        xc = xall - xall.mean(axis=1, keepdims=True)
-        x64 = (xc / np.abs(xc).max(axis=1, keepdims=True)).astype(np.float32).astype(np.float64)
+        x64 = (xall / np.abs(xall).max(axis=1, keepdims=True)).astype(np.float32).astype(np.float64)
         # numpy >= 2 runs the FFT of float32 data in single precision: errors ~1e-7 relative to the LARGEST
         # spectral component, i.e. up to ~1e-4 on coherency / phase at weak bins; 1e-3 still separates precision
         # loss from a wrong result (truncation, wrong dtype of the container: O(0.1..1))
